@@ -23,6 +23,9 @@ struct Case {
     lat: [Duration; 3],
     echo: EchoKind,
     unsolicited: bool,
+    /// the socket takes only this many bytes of the first Keep Alive frame and then nothing for 2 s,
+    /// while discovery completes 1 s into that stall and selection takes another 30 s
+    ka_write_stall: Option<usize>,
     seed: u64,
 }
 
@@ -66,9 +69,15 @@ fn generate(cli: &Cli) -> Vec<Case> {
                 for e in &echoes {
                     let mut lat = [Duration::ZERO; 3];
                     lat[slow_stage] = *l;
-                    out.push(Case { class: String::new(), pre_login: Duration::from_secs(pre), ci_delay: Duration::from_secs(ci), lat, echo: e.clone(), unsolicited: false, seed: rng.u64() });
+                    out.push(Case { class: String::new(), pre_login: Duration::from_secs(pre), ci_delay: Duration::from_secs(ci), lat, echo: e.clone(), unsolicited: false, ka_write_stall: None, seed: rng.u64() });
                 }
             }
+        }
+    }
+    // the first Keep Alive is half written when discovery completes (every cut of the frame)
+    for k in 1..10usize {
+        for e in [EchoKind::Prompt, EchoKind::DelayedPermille(500)] {
+            out.push(Case { class: String::new(), pre_login: Duration::ZERO, ci_delay: Duration::ZERO, lat: [Duration::ZERO; 3], echo: e, unsolicited: false, ka_write_stall: Some(k), seed: rng.u64() });
         }
     }
     // random schedules with jitter
@@ -90,6 +99,7 @@ fn generate(cli: &Cli) -> Vec<Case> {
             lat: [jitter(&mut rng), jitter(&mut rng), jitter(&mut rng)],
             echo: e,
             unsolicited: rng.chance(1, 8),
+            ka_write_stall: None,
             seed: rng.u64(),
         });
     }
@@ -102,6 +112,9 @@ fn generate(cli: &Cli) -> Vec<Case> {
             _ => ">32s",
         };
         c.class = format!("ci-{}/pre-{}/disc-{}/filter-{}/strat-{}/{:?}{}", bucket(c.ci_delay), bucket(c.pre_login), bucket(c.lat[0]), bucket(c.lat[1]), bucket(c.lat[2]), c.echo, if c.unsolicited { "/unsolicited-echo" } else { "" });
+        if let Some(k) = c.ka_write_stall {
+            c.class = format!("keep-alive-half-written@{k}/{:?}", c.echo);
+        }
     }
     out
 }
@@ -183,7 +196,22 @@ fn run_case(c: &Case) -> Outcome {
         EchoKind::StopAfter(k) => Echo::StopAfter(*k),
         EchoKind::Previous => Echo::Previous,
     };
-    let (sc, chosen) = scenario(c, echo, c.lat);
+    let mut lat = c.lat;
+    let mut stall_allowance = 0u64;
+    let mut stall_plan = None;
+    if let Some(k) = c.ka_write_stall {
+        // discovery completes 1 s after the first tick, selection takes 30 s more
+        let t_ci = cal.client.sent.iter().find(|s| s.label == "ClientInformation").map(|s| s.t_ns).unwrap_or(0);
+        lat = [Duration::from_nanos(cal_ka[0].saturating_sub(t_ci) + SEC), Duration::ZERO, Duration::from_secs(30)];
+        let offset: usize = cal.client.received.iter().take_while(|r| !matches!(r.pkt, Ok(Pkt::ConfKeepAliveOut { .. }))).map(|r| r.frame_len).sum();
+        stall_plan = Some(vp_sim::simnet::WritePlan { steps: vec![], stalls: vec![(offset + k, Duration::from_secs(2))] });
+        // what the transport holds back is not the server's delay
+        stall_allowance = 2 * SEC;
+    }
+    let (mut sc, chosen) = scenario(c, echo, lat);
+    if let Some(p) = stall_plan {
+        sc.write_plan = p;
+    }
     let r = run(&sc);
     let f = facts(&r);
     let names = r.client.names();
@@ -195,7 +223,7 @@ fn run_case(c: &Case) -> Outcome {
         bad("setup/login-incomplete".into(), format!("login did not reach the configuration phase ({})", r.result.kind()), json!({}));
         return Outcome { findings, sample: json!({"case": c.class}), keep_alives: 0, timed_out: false, transferred: false, skipped: false };
     };
-    let routing_done = t_ci + (c.lat[0] + c.lat[1] + c.lat[2]).as_nanos() as u64;
+    let routing_done = t_ci + (lat[0] + lat[1] + lat[2]).as_nanos() as u64;
     // first Keep Alive (index) this client leaves without a correct echo before the next is due
     let unechoed: Option<usize> = match &c.echo {
         EchoKind::Never | EchoKind::WrongId => Some(0),
@@ -227,7 +255,7 @@ fn run_case(c: &Case) -> Outcome {
     marks.extend(f.keep_alives.iter().map(|k| k.1));
     marks.push(t_end);
     for w in marks.windows(2) {
-        if w[1] > w[0] && w[1] - w[0] > BOUND_NS {
+        if w[1] > w[0] && w[1] - w[0] > BOUND_NS + stall_allowance {
             bad(
                 "keep-alive-gap".into(),
                 format!("{:.3} s without a Keep Alive while the client was waiting in the configuration phase", (w[1] - w[0]) as f64 / 1e9),
@@ -276,7 +304,7 @@ fn run_case(c: &Case) -> Outcome {
                     bad("transfer-wrong-target".into(), "Transfer does not name the chosen target".into(), json!({"chosen": chosen.to_string()}));
                 }
                 let done = f.select_calls.first().and_then(|c| c.done_ns).unwrap_or(routing_done);
-                if *t > done + SEC {
+                if *t > done + SEC + stall_allowance {
                     bad("transfer-late".into(), format!("Transfer {:.3} s after routing completed", (*t - done) as f64 / 1e9), json!({}));
                 }
             }
